@@ -341,6 +341,8 @@ def bytes_to_unknown_group_element(bytes):
 
 def bytes_to_element(bytes):
     # this strictly only accepts elements in the right subgroup
+    if len(bytes) != 32:
+        raise ValueError("element must be exactly 32 bytes")
     P = bytes_to_unknown_group_element(bytes)
     if P is Zero:
         raise ValueError("element was Zero")
